@@ -29,7 +29,7 @@ BACKOFF_MS = 50
 ALPHABET = {"Config", "Call", "Return", "TState", "Append", "Done", "Fail", "BrokerApply", "BrokerReject", "BrokerDup",
             "InitPidReply", "AddPartitionsReply", "AddOffsetsReply", "TxnOffsetCommitReply", "EndTxnReply",
             "TxnPrepare", "WriteMarker", "GroupMarker", "TxnComplete", "Fault", "Resolved", "Killed", "NewInstance",
-            "End", "Hang", "Crash", "CoordinatorMoves", "ClientSend", "AbortableError"}
+            "End", "Hang", "Crash", "CoordinatorMoves", "ClientSend", "AbortableError", "NodeDown", "LeaderMoves"}
 
 TXN_CODES = {"InitProducerId": [14, 15, 16, 51], "AddPartitionsToTxn": [14, 15, 16, 51, 3],
              "AddOffsetsToTxn": [14, 15, 16, 51], "TxnOffsetCommit": [14, 15, 16, 3], "EndTxn": [14, 15, 16, 51],
@@ -158,6 +158,23 @@ def run_scenario(sc: dict):
         state["loop"] = loop
         log.emit("Config", tid=sc["tid"], parts=[f"{t}-{p}" for t in TOPICS for p in range(sc["nparts"])],
                  unauth=sorted(unauth), request_ms=REQUEST_MS, strict=bool(sc.get("strict", False)))
+        if sc.get("node_down"):
+            # the node hosting the transaction coordinator dies for good; its roles (coordinators, partition leaders) move
+            # to a surviving node, as a real cluster would do
+            def node_down():
+                dead = cl.coordinator_for(1, sc["tid"])
+                alive = [n for n in cl.nodes if n != dead and cl.nodes[n].up]
+                if not alive:
+                    return
+                to = alive[0]
+                cl.kill_node(dead)
+                cl.move_coordinator(1, sc["tid"], to)
+                if cl.coordinator_for(0, GROUP) == dead:
+                    cl.move_coordinator(0, GROUP, to)
+                for (t_, p_), pl in cl.parts.items():
+                    if pl.leader == dead:
+                        cl.move_leader(t_, p_, to)
+            loop.call_later(sc["node_down"], node_down, context=cl.ctx)
         if sc.get("coord_move"):
             t, node = sc["coord_move"]
             loop.call_later(t, lambda: cl.move_coordinator(1, sc["tid"], node), context=cl.ctx)
